@@ -1,26 +1,22 @@
 #!/usr/bin/env python3
-# development aid (not used by any check): run C11 over seeds, list unlisted panic signatures with reproducers
-import json,glob,os,subprocess,sys,re,hashlib
-seeds=sys.argv[1:] or ['1']
-kf=json.load(open('/verif/known_findings.json'))
-have={e['key'] for e in kf}
+# development aid (not used by any check): run `vc-front C11` in harvest mode over seeds;
+# every unlisted failure signature is saved once (first input) under the harvest dir.
+#   harvest_c11.py <seed> [<seed> ...]   env: C11_CASES, C11_ONLY, C11_BIN_DIR, HARVEST_DIR, TIER
+import json, glob, os, subprocess, sys, time
+seeds = sys.argv[1:] or ['1']
+bin_dir = os.environ.get('C11_BIN_DIR', '/verif/.target/a-front/release')
+hdir = os.environ.get('HARVEST_DIR', '/verif/.work/a-front/harvest')
+out = os.environ.get('VERIF_OUT', '/verif/.work/a-front/out')
+os.makedirs(out + '/.work', exist_ok=True)
+tier = os.environ.get('TIER', 'quick')
 for s in seeds:
-    while True:
-        subprocess.run(['rm','-rf','/verif/replays/C11'])
-        p=subprocess.run(['/verif/.target/h/release/vc-front','C11','quick'],capture_output=True,text=True,env={**os.environ,'VERIF_SEED':s})
-        new=0
-        for f in glob.glob('/verif/replays/C11/*.json'):
-            r=json.load(open(f)); sig=r['signature']
-            if sig in have or not sig.startswith('panic@'): 
-                if sig not in have: print('OTHER',sig)
-                continue
-            have.add(sig); new+=1
-            slug=re.sub(r'[^a-z0-9]+','-',sig.lower())[:60]+'-'+hashlib.md5(sig.encode()).hexdigest()[:6]
-            out={"property":"C11","sub":"finding","choices":None,"signature":sig,"message":r['message'],"payload":{"files":r['input']['files']}}
-            json.dump(out,open(f'/verif/known/C11/{slug}.json','w'),indent=1)
-            kf.append({"property":"C11","key":sig,"status":"known","what":"the analyzer panics instead of reporting a diagnostic: "+r['message'][:200],"replay":f"known/C11/{slug}.json"})
-            json.dump(kf,open('/verif/known_findings.json','w'),indent=2)
-            print('seed',s,'NEW',sig,'|',r['message'][:160])
-        tail=[l for l in p.stdout.split('\n') if 'quick:' in l]
-        print('seed',s,tail)
-        if new==0: break
+    before = set(os.listdir(hdir)) if os.path.isdir(hdir) else set()
+    t0 = time.time()
+    env = {**os.environ, 'VERIF_SEED': s, 'C11_HARVEST': hdir, 'VERIF_OUT': out}
+    p = subprocess.run([bin_dir + '/vc-front', 'C11', tier], capture_output=True, text=True, env=env)
+    after = set(os.listdir(hdir)) if os.path.isdir(hdir) else set()
+    tail = [l for l in p.stdout.split('\n') if ' quick:' in l or ' thorough:' in l or 'INCONCLUSIVE' in l or 'VIOLATION' in l]
+    print(f'seed {s}: rc={p.returncode} {time.time()-t0:.0f}s new={len(after-before)} {tail}', flush=True)
+    for f in sorted(after - before):
+        r = json.load(open(f'{hdir}/{f}'))
+        print('   NEW', f, r['signature'], '|', r['message'].split('\n')[0][:200], flush=True)
